@@ -1,10 +1,14 @@
 package main
 
-// C20 — intertx: value provenance rules on SubmitTx / RegisterAccount.
+// C20 — intertx: what SubmitTx hands to the interchain-accounts controller, decided on the explored
+// paths of the handlers (E1) so that the verdict does not depend on which helper builds what.
 
 import (
 	"fmt"
+	"go/constant"
 	"go/types"
+	"regexp"
+	"sort"
 	"strings"
 
 	"golang.org/x/tools/go/ssa"
@@ -12,26 +16,38 @@ import (
 
 func init() { register("C20", checkC20) }
 
-func findInvokes(fn *ssa.Function, iface, method string) []*ssa.Call {
-	var out []*ssa.Call
-	for _, ci := range callsIn(fn) {
-		call, ok := ci.(*ssa.Call)
-		if !ok || !call.Call.IsInvoke() || call.Call.Method.Name() != method {
+var timeoutTerm = regexp.MustCompile(`^Time\.UnixNano\(Time\.Add\(blocktime, ([0-9]+)\)\)$`)
+
+// icaConst evaluates a constant of the interchain-accounts types package (EXECUTE_TX).
+func icaConst(p *Program, name string) (string, bool) {
+	for _, pk := range p.SSA.AllPackages() {
+		if pk.Pkg == nil || !strings.HasSuffix(pk.Pkg.Path(), "27-interchain-accounts/types") {
 			continue
 		}
-		if n := namedOf(call.Call.Value.Type()); n != nil && n.Obj().Name() == iface {
-			out = append(out, call)
+		if cst, ok := pk.Pkg.Scope().Lookup(name).(*types.Const); ok && cst.Val().Kind() == constant.Int {
+			return cst.Val().ExactString(), true
+		}
+	}
+	return "", false
+}
+
+func extEvents(st *State, method string) []*Event {
+	var out []*Event
+	for i := range st.events {
+		if ev := &st.events[i]; ev.Kind == "ext" && ev.Method == method {
+			out = append(out, ev)
 		}
 	}
 	return out
 }
 
 func checkC20(c *Ctx, e *Env) {
-	c.Explanation = "SSA value provenance in x/intertx/keeper (engine E2 on the dominator tree): I1 the port passed to GetActiveChannelID, ChannelCapabilityPath and SendTx is the single value NewControllerPortID(msg.Owner); the connection is msg.ConnectionId; " +
-		"I2 SendTx is dominated by found==true of both the active-channel and the capability lookup, whose results are the channel and capability passed on; there is exactly one SendTx call site in the module, in SubmitTx; " +
-		"I3 the packet has constant type EXECUTE_TX and Data = SerializeCosmosTx(k.cdc, one-element slice holding msg.Msg.GetCachedValue().(sdk.Msg)), the message value has no other use, nothing stores into the request; I4 timeout = uint64(ctx.BlockTime().Add(time.Minute).UnixNano()) with ctx unwrapped from the handler context; " +
-		"I5 GetSigners of MsgSubmitTx/MsgRegisterAccount return exactly the bech32 decoding of Owner; RegisterAccount forwards (ConnectionId, Owner, Version)."
-	c.NotDecided = []string{"that ibc-go derives the port injectively from the owner and delivers the packet (dependency)", "byte-level round trip of SerializeCosmosTx"}
+	c.Explanation = "Path exploration of the two x/intertx handlers (engine E1: every committed path, helpers inlined, calls into ibc-go kept as uninterpreted terms) plus a call-graph rule: " +
+		"I1 the port handed to GetActiveChannelID, ChannelCapabilityPath and SendTx is the one term NewControllerPortID(req.Owner) and the connection is req.ConnectionId; " +
+		"I2 every committed path performs exactly one SendTx, behind found==true of the active-channel lookup and of the capability lookup whose results are the channel/capability passed on; SendTx and RegisterInterchainAccount call sites are reachable only through their handler; " +
+		"I3 the packet has constant type EXECUTE_TX, empty memo and Data = SerializeCosmosTx(keeper codec, exactly [req.Msg.GetCachedValue().(sdk.Msg)]); nothing stores into the request; I4 the context is the handler's and the timeout is block time plus a positive constant; " +
+		"I5 GetSigners of both messages returns exactly [bech32(Owner)]; RegisterAccount forwards (ConnectionId, Owner, Version)."
+	c.NotDecided = []string{"that ibc-go derives the port injectively from the owner and delivers the packet (dependency)", "byte-level round trip of SerializeCosmosTx", "mutation of the cached inner message through its concrete type before serialisation"}
 	c.Assumptions = []string{"A6", "A7"}
 	m := e.Model("x/intertx")
 	p := m.P
@@ -51,279 +67,275 @@ func checkC20(c *Ctx, e *Env) {
 		return
 	}
 	c.Count("handlers", 2)
-	// I5 signers
+	r := RunE1(m)
+
+	// ---------------- I5 signers
 	c.Check(submit.SignerField == "Owner", "C20.I5", "MsgSubmitTx.GetSigners", "-", "GetSigners decodes exactly one request field: "+submit.SignerField+" (required Owner)")
 	c.Check(register.SignerField == "Owner", "C20.I5", "MsgRegisterAccount.GetSigners", "-", "GetSigners decodes exactly one request field: "+register.SignerField+" (required Owner)")
 	for _, ep := range []*EntryPoint{submit, register} {
-		c.Check(signersSingle(m, ep.Req), "C20.I5", ep.Req.Obj().Name()+".GetSigners#single", "-", "GetSigners returns a one-element slice holding that address")
+		ok, det := signersExactly(m, r.X, ep.Req, "addr(req.Owner)")
+		c.Check(ok, "C20.I5", ep.Req.Obj().Name()+".GetSigners#single", "-", "GetSigners returns exactly [bech32(Owner)] on every path: "+det)
 	}
 
-	fn := submit.Fn
-	t := NewTermer(fn)
-	msg := fn.Params[len(fn.Params)-1].Name()
-	goCtx := fn.Params[len(fn.Params)-2].Name()
-	wantPort := "NewControllerPortID(" + msg + ".Owner)#0"
-	wantConn := msg + ".ConnectionId"
-	wantCtx := "UnwrapSDKContext(" + goCtx + ")"
-
-	sends := findInvokes(fn, "ICAControllerKeeper", "SendTx")
-	// whole-module SendTx inventory
-	nSend := 0
-	for _, pk := range p.RepoList {
-		if excludedPkg(pk.PkgPath) != "" || strings.Contains(pk.PkgPath, "/mocks") {
-			continue
-		}
-		sp := p.ssaPkgs[pk.Types]
-		if sp == nil {
-			continue
-		}
-		for _, f := range pkgFuncs(p.SSA, sp) {
-			if !pos0(p, f) {
+	// ---------------- who may call (I2)
+	inv := map[string]string{"SendTx": "intertx.SubmitTx", "SendPacket": "intertx.SubmitTx", "RegisterInterchainAccount": "intertx.RegisterAccount"}
+	nSites := 0
+	for _, f := range m.subjectFns(false) {
+		c.Count("functions_scanned", 1)
+		for _, ci := range callsIn(f) {
+			cc := ci.Common()
+			name := ""
+			if cc.IsInvoke() {
+				name = cc.Method.Name()
+			} else if sc := cc.StaticCallee(); sc != nil {
+				name = sc.Name()
+				if isRepoPkgPath(fnPkgPath(sc)) {
+					continue
+				}
+			}
+			gate, watched := inv[name]
+			if !watched {
 				continue
 			}
-			c.Count("functions_scanned", 1)
-			for _, ci := range callsIn(f) {
-				cc := ci.Common()
-				name := ""
-				if cc.IsInvoke() {
-					name = cc.Method.Name()
-				} else if sc := cc.StaticCallee(); sc != nil {
-					name = sc.Name()
+			nSites++
+			only, chain := m.reachedOnlyThrough(f, m.entryFns(gate))
+			why := ""
+			if !only {
+				why = ": reached by " + chain
+			}
+			c.Check(only, "C20.I2", funcKey(f)+"#"+name, p.Pos(ci.Pos()), name+" is called only on call chains through the "+gate+" handler (whose paths are checked below)"+why)
+		}
+	}
+	c.Min("controller call sites", 2, nSites)
+
+	// ---------------- SubmitTx paths
+	h := r.byKey["intertx.SubmitTx"]
+	if h == nil || h.Cut {
+		c.Undecide("C20.I2", "intertx.SubmitTx", "-", "handler exploration missing or cut short")
+		return
+	}
+	execTx, okConst := icaConst(p, "EXECUTE_TX")
+	if !okConst {
+		c.Undecide("C20.I3", "packet#type", "-", "constant icatypes.EXECUTE_TX not found")
+		return
+	}
+	type res struct{ ok bool; det string }
+	agg := map[string]*res{}
+	var order []string
+	set := func(key string, ok bool, det string) {
+		a := agg[key]
+		if a == nil {
+			a = &res{ok: true}
+			agg[key] = a
+			order = append(order, key)
+		}
+		if !ok && a.ok {
+			a.ok, a.det = false, det
+		} else if a.ok && a.det == "" {
+			a.det = det
+		}
+	}
+	nPaths := 0
+	port := "NewControllerPortID(req.Owner)#0"
+	for _, o := range h.Outs {
+		if o.Kind != exitReturn {
+			continue
+		}
+		nPaths++
+		st := o.St
+		sends := extEvents(st, "SendTx")
+		set("I2|SendTx#once-per-path", len(sends) == 1, fmt.Sprintf("%d SendTx calls on a committed path", len(sends)))
+		if len(sends) != 1 {
+			continue
+		}
+		ev := sends[0]
+		if len(ev.Args) != 7 {
+			c.Undecide("C20.I1", "SendTx#arity", p.Pos(ev.Pos.Pos()), "SendTx signature changed; rule must be re-confirmed")
+			return
+		}
+		a := func(i int) string { return st.canon(ev.Args[i]) }
+		set("I4|SendTx#ctx", a(1) == "ctx", "context is "+a(1)+" (required the handler's unwrapped context)")
+		set("I1|SendTx#port", a(4) == port && factBefore(st, "+Ok(NewControllerPortID(req.Owner)#1)", ev), "port argument is "+a(4)+" (required "+port+", successfully derived)")
+		set("I1|SendTx#connection", a(3) == "req.ConnectionId", "connection argument is "+a(3)+" (required req.ConnectionId)")
+		// lookups
+		var chanTerm, capTerm string
+		for _, ce := range extEvents(st, "GetActiveChannelID") {
+			if len(ce.Args) == 4 && st.canon(ce.Args[2]) == "req.ConnectionId" && st.canon(ce.Args[3]) == port && st.canon(ce.Args[1]) == "ctx" {
+				chanTerm = fmt.Sprintf("invoke:GetActiveChannelID(%s, ctx, req.ConnectionId, %s)", st.canon(ce.Args[0]), port)
+			}
+		}
+		set("I1|GetActiveChannelID#args", chanTerm != "", "active channel looked up for (req.ConnectionId, "+port+")")
+		set("I2|SendTx#dominated-by:GetActiveChannelID", chanTerm != "" && factBefore(st, "+Bool("+chanTerm+"#1)", ev), "SendTx lies behind found==true of the active-channel lookup")
+		wantPath := "ChannelCapabilityPath(" + port + ", " + chanTerm + "#0)"
+		for _, ce := range extEvents(st, "GetCapability") {
+			if len(ce.Args) == 3 && st.canon(ce.Args[2]) == wantPath {
+				capTerm = fmt.Sprintf("invoke:GetCapability(%s, %s, %s)", st.canon(ce.Args[0]), st.canon(ce.Args[1]), wantPath)
+			}
+		}
+		set("I1|GetCapability#path", capTerm != "", "capability looked up under "+wantPath)
+		set("I2|SendTx#capability", capTerm != "" && a(2) == capTerm+"#0", "capability argument is "+a(2)+" (required the result of that lookup)")
+		set("I2|SendTx#dominated-by:GetCapability", capTerm != "" && factBefore(st, "+Bool("+capTerm+"#1)", ev), "SendTx lies behind found==true of the capability lookup")
+		// timeout
+		mt := timeoutTerm.FindStringSubmatch(a(6))
+		set("I4|SendTx#timeout", mt != nil && strings.TrimLeft(mt[1], "0") != "", "timeout is "+a(6)+" (required block time + positive constant, as UnixNano)")
+		// packet
+		pf := structFields(st, ev.Args[5])
+		if pf == nil {
+			set("I3|packet#type", false, "packet data is not a locally built value: "+a(5))
+			continue
+		}
+		set("I3|packet#type", pf[".Type"] != nil && st.canon(pf[".Type"]) == execTx, "packet Type is "+canonOr(st, pf[".Type"])+" (required EXECUTE_TX = "+execTx+")")
+		memo := canonOr(st, pf[".Memo"])
+		set("I3|packet#memo", memo == "" || memo == `""`, "packet memo is "+memo+" (required empty)")
+		data := canonOr(st, pf[".Data"])
+		var ser *Event
+		for i := range st.events {
+			if ce := &st.events[i]; ce.Kind == "ext" && ce.Method == "SerializeCosmosTx" && len(ce.Args) == 2 && data == "SerializeCosmosTx("+st.canon(ce.Args[0])+", "+st.canon(ce.Args[1])+")#0" {
+				ser = ce
+			}
+		}
+		set("I3|packet#data", ser != nil && factBefore(st, "+Ok("+strings.TrimSuffix(data, "#0")+"#1)", ev), "packet Data is "+data+" (required the successful result of SerializeCosmosTx)")
+		if ser == nil {
+			continue
+		}
+		set("I3|packet#codec", strings.HasPrefix(st.canon(ser.Args[0]), "k."), "serialised with the keeper codec: "+st.canon(ser.Args[0]))
+		els, known := r.X.sliceElems(st, ser.Args[1])
+		set("I3|packet#single-message", known && len(els) == 1, fmt.Sprintf("message list has exactly one element (known=%v, %d)", known, len(els)))
+		if known && len(els) == 1 {
+			got := st.canon(els[0])
+			set("I3|packet#message-provenance", got == "Any.GetCachedValue(req.Msg)" && factBefore(st, "+TypeIs(Any.GetCachedValue(req.Msg),github.com/cosmos/cosmos-sdk/types.Msg)", ev),
+				"the element is "+got+" (required req.Msg.GetCachedValue() asserted to sdk.Msg)")
+		}
+	}
+	c.Min("committed SubmitTx paths", 1, nPaths)
+	sort.Strings(order)
+	for _, k := range order {
+		parts := strings.SplitN(k, "|", 2)
+		a := agg[k]
+		if a.ok {
+			c.Hold("C20."+parts[0], parts[1], p.Pos(h.Fn.Pos()), a.det, nil)
+		} else {
+			c.Violate("C20."+parts[0], parts[1], p.Pos(h.Fn.Pos()), a.det, nil)
+		}
+	}
+
+	// ---------------- I3: nothing stores into the request (handler and everything it reaches in the module)
+	g := NewGraph(p)
+	nStore := 0
+	for f := range g.Closure([]*ssa.Function{submit.Fn}) {
+		if !g.isSubjectFn(f) {
+			continue
+		}
+		for _, b := range f.Blocks {
+			for _, in := range b.Instrs {
+				st, ok := in.(*ssa.Store)
+				if !ok {
+					continue
 				}
-				if name == "SendTx" || name == "SendPacket" {
-					nSend++
-					if f != fn {
-						c.Violate("C20.I2", funcKey(f)+"#"+name, p.Pos(ci.Pos()), "interchain-account send outside SubmitTx: bypasses the owner/port/capability checks", nil)
+				root := addrRoot(st.Addr)
+				if root == nil {
+					continue
+				}
+				if n := namedOf(root.Type()); n != nil && (n.Obj() == submit.Req.Obj() || (n.Obj().Name() == "Any" && strings.HasSuffix(n.Obj().Pkg().Path(), "codec/types"))) {
+					if _, isAlloc := root.(*ssa.Alloc); isAlloc {
+						continue // a locally built value of that type, not the request
 					}
+					nStore++
+					c.Violate("C20.I3", funcKey(f)+"#store-into-request", p.Pos(st.Pos()), "writes into the request message (or its packed inner message) before forwarding it", nil)
 				}
 			}
 		}
 	}
-	c.Check(len(sends) == 1 && nSend == 1, "C20.I2", "SendTx#single-site", p.Pos(fn.Pos()), fmt.Sprintf("exactly one SendTx call site in the module and it is in SubmitTx (found %d in SubmitTx, %d in module)", len(sends), nSend))
-	if len(sends) != 1 {
-		return
+	if nStore == 0 {
+		c.Hold("C20.I3", "SubmitTx#request-unmodified", p.Pos(submit.Fn.Pos()), "no store into the request message in SubmitTx or anything it reaches in the module", nil)
 	}
-	send := sends[0]
-	args := send.Call.Args // ctx, chanCap, connectionID, portID, packetData, timeout
-	if len(args) != 6 {
-		c.Undecide("C20.I1", "SendTx#arity", p.Pos(send.Pos()), "SendTx signature changed; rule must be re-confirmed")
-		return
-	}
-	pos := p.Pos(send.Pos())
-	c.Check(t.T(args[0]) == wantCtx, "C20.I4", "SendTx#ctx", pos, "context is "+t.T(args[0])+" (required "+wantCtx+")")
-	c.Check(t.T(args[3]) == wantPort, "C20.I1", "SendTx#port", pos, "port argument is "+t.T(args[3])+" (required "+wantPort+")")
-	c.Check(t.T(args[2]) == wantConn, "C20.I1", "SendTx#connection", pos, "connection argument is "+t.T(args[2])+" (required "+wantConn+")")
-	// channel lookup
-	chans := findInvokes(fn, "ICAControllerKeeper", "GetActiveChannelID")
-	caps := findInvokes(fn, "CapabilityKeeper", "GetCapability")
-	if len(chans) != 1 || len(caps) != 1 {
-		c.Violate("C20.I2", "lookups", pos, fmt.Sprintf("expected exactly one GetActiveChannelID and one GetCapability call, found %d and %d", len(chans), len(caps)), nil)
-		return
-	}
-	ch, cp := chans[0], caps[0]
-	c.Check(t.T(ch.Call.Args[1]) == wantConn && t.T(ch.Call.Args[2]) == wantPort, "C20.I1", "GetActiveChannelID#args", p.Pos(ch.Pos()),
-		"active channel looked up for ("+t.T(ch.Call.Args[1])+", "+t.T(ch.Call.Args[2])+") (required ("+wantConn+", "+wantPort+"))")
-	wantChan := t.T(ch) + "#0"
-	wantPath := "ChannelCapabilityPath(" + wantPort + ", " + wantChan + ")"
-	c.Check(t.T(cp.Call.Args[1]) == wantPath, "C20.I1", "GetCapability#path", p.Pos(cp.Pos()), "capability path is "+t.T(cp.Call.Args[1])+" (required "+wantPath+")")
-	c.Check(t.T(args[1]) == t.T(cp)+"#0", "C20.I2", "SendTx#capability", pos, "capability argument is "+t.T(args[1])+" (required the result of that GetCapability call)")
-	for _, lk := range []struct {
-		call *ssa.Call
-		name string
-	}{{ch, "GetActiveChannelID"}, {cp, "GetCapability"}} {
-		ok := false
-		for _, r := range *lk.call.Referrers() {
-			if ex, isEx := r.(*ssa.Extract); isEx && ex.Index == 1 {
-				if ifi, neg := ifOn(ex); ifi != nil {
-					branch := 0
-					if neg {
-						branch = 1
-					}
-					if edgeDominates(ifi.Block(), branch, send.Block()) {
-						ok = true
-					}
-				}
-			}
-		}
-		c.Check(ok, "C20.I2", "SendTx#dominated-by:"+lk.name, p.Pos(lk.call.Pos()), "SendTx is reached only through found==true of "+lk.name)
-	}
-	// I3 packet
-	ruleC20Packet(c, p, t, fn, send, msg)
-	// I4 timeout
-	wantTO := "uint64(Time.UnixNano(Time.Add(Context.BlockTime(" + wantCtx + "), 60000000000)))"
-	c.Check(t.T(args[5]) == wantTO, "C20.I4", "SendTx#timeout", pos, "timeout is "+t.T(args[5])+" (required "+wantTO+")")
-	// nothing stores into the request
-	stores := 0
-	for _, b := range fn.Blocks {
-		for _, in := range b.Instrs {
-			if st, ok := in.(*ssa.Store); ok {
-				if root := addrRoot(st.Addr); root == fn.Params[len(fn.Params)-1] {
-					stores++
-					c.Violate("C20.I3", "SubmitTx#store-into-request", p.Pos(st.Pos()), "SubmitTx writes into the request message before forwarding it", nil)
-				}
-			}
-		}
-	}
-	if stores == 0 {
-		c.Hold("C20.I3", "SubmitTx#request-unmodified", p.Pos(fn.Pos()), "no store into the request message anywhere in SubmitTx", nil)
-	}
-	// RegisterAccount forwards owner
-	rt := NewTermer(register.Fn)
-	rmsg := register.Fn.Params[len(register.Fn.Params)-1].Name()
-	regs := findInvokes(register.Fn, "ICAControllerKeeper", "RegisterInterchainAccount")
-	if len(regs) != 1 {
-		c.Violate("C20.I5", "RegisterAccount#call", p.Pos(register.Fn.Pos()), fmt.Sprintf("expected one RegisterInterchainAccount call, found %d", len(regs)), nil)
+
+	// ---------------- RegisterAccount
+	if hr := r.byKey["intertx.RegisterAccount"]; hr == nil || hr.Cut {
+		c.Undecide("C20.I5", "intertx.RegisterAccount", "-", "handler exploration missing or cut short")
 	} else {
-		a := regs[0].Call.Args
-		got := []string{rt.T(a[1]), rt.T(a[2]), rt.T(a[3])}
-		want := []string{rmsg + ".ConnectionId", rmsg + ".Owner", rmsg + ".Version"}
-		c.Check(strings.Join(got, ",") == strings.Join(want, ","), "C20.I5", "RegisterAccount#args", p.Pos(regs[0].Pos()), "RegisterInterchainAccount receives ("+strings.Join(got, ", ")+") (required ("+strings.Join(want, ", ")+"))")
-	}
-	c.Min("functions scanned for SendTx", 5, c.Analysed["functions_scanned"])
-}
-
-func ruleC20Packet(c *Ctx, p *Program, t *Termer, fn *ssa.Function, send *ssa.Call, msg string) {
-	pos := p.Pos(send.Pos())
-	pk := send.Call.Args[4]
-	ld, ok := pk.(*ssa.UnOp)
-	var alloc *ssa.Alloc
-	if ok {
-		alloc, _ = ld.X.(*ssa.Alloc)
-	}
-	if alloc == nil {
-		c.Violate("C20.I3", "packet#literal", pos, "packet data is not a locally built struct literal: "+t.T(pk), nil)
-		return
-	}
-	fs := fieldStores(alloc)
-	// Type
-	okType := false
-	if vs := fs["Type"]; len(vs) == 1 {
-		if v, isC := constInt(vs[0]); isC {
-			// resolve icatypes.EXECUTE_TX
-			if want, found := pkgConstInt(fn, "27-interchain-accounts/types", "EXECUTE_TX"); found && want == v {
-				okType = true
+		bad := ""
+		n := 0
+		for _, o := range hr.Outs {
+			if o.Kind != exitReturn {
+				continue
+			}
+			n++
+			st := o.St
+			regs := extEvents(st, "RegisterInterchainAccount")
+			if len(regs) != 1 {
+				bad = fmt.Sprintf("%d RegisterInterchainAccount calls on a committed path", len(regs))
+				continue
+			}
+			var got []string
+			for _, a := range regs[0].Args[1:] {
+				got = append(got, st.canon(a))
+			}
+			if strings.Join(got, ", ") != "ctx, req.ConnectionId, req.Owner, req.Version" {
+				bad = "RegisterInterchainAccount receives (" + strings.Join(got, ", ") + "), required (ctx, req.ConnectionId, req.Owner, req.Version)"
 			}
 		}
+		c.Check(bad == "" && n > 0, "C20.I5", "RegisterAccount#args", p.Pos(hr.Fn.Pos()), fmt.Sprintf("%d committed paths each register exactly once with (ctx, req.ConnectionId, req.Owner, req.Version) %s", n, bad))
 	}
-	c.Check(okType, "C20.I3", "packet#type", pos, "packet Type is the constant icatypes.EXECUTE_TX")
-	// Data
-	vs := fs["Data"]
-	if len(vs) != 1 {
-		c.Violate("C20.I3", "packet#data", pos, fmt.Sprintf("packet Data assigned %d times", len(vs)), nil)
-		return
+}
+
+func canonOr(st *State, v Val) string {
+	if v == nil {
+		return ""
 	}
-	ex, _ := vs[0].(*ssa.Extract)
-	var ser *ssa.Call
-	if ex != nil && ex.Index == 0 {
-		ser, _ = ex.Tuple.(*ssa.Call)
-	}
-	if ser == nil || shortCallee(&ser.Call) != "SerializeCosmosTx" {
-		c.Violate("C20.I3", "packet#data", pos, "packet Data is not the result of SerializeCosmosTx: "+t.T(vs[0]), nil)
-		return
-	}
-	c.Check(strings.HasSuffix(t.T(ser.Call.Args[0]), ".cdc"), "C20.I3", "packet#codec", p.Pos(ser.Pos()), "serialised with the keeper codec: "+t.T(ser.Call.Args[0]))
-	// msgs slice: one element
-	sl, _ := ser.Call.Args[1].(*ssa.Slice)
-	var arr *ssa.Alloc
-	if sl != nil {
-		arr, _ = sl.X.(*ssa.Alloc)
-	}
-	if arr == nil {
-		c.Violate("C20.I3", "packet#msgs", p.Pos(ser.Pos()), "message list is not a slice literal", nil)
-		return
-	}
-	at, _ := arr.Type().(*types.Pointer).Elem().Underlying().(*types.Array)
-	es := elemStores(arr)
-	one := at != nil && at.Len() == 1 && len(es) == 1 && len(es[0]) == 1
-	c.Check(one, "C20.I3", "packet#single-message", p.Pos(ser.Pos()), fmt.Sprintf("message list literal has exactly one element (array length %d)", arrLen(at)))
-	if !one {
-		return
-	}
-	want := msg + ".Msg.GetCachedValue().(types.Msg)#0"
-	got := t.T(es[0][0])
-	got = strings.Replace(got, "Any.GetCachedValue("+msg+".Msg)", msg+".Msg.GetCachedValue()", 1)
-	c.Check(got == want, "C20.I3", "packet#message-provenance", p.Pos(ser.Pos()), "the element is "+got+" (required "+want+")")
-	// the asserted message value has no use other than the slice element (and the comma-ok flag)
-	var elem ssa.Value = es[0][0]
-	for {
-		switch x := elem.(type) {
-		case *ssa.ChangeInterface:
-			elem = x.X
-			continue
-		case *ssa.MakeInterface:
-			elem = x.X
-			continue
-		}
-		break
-	}
-	other := 0
-	if elem.Referrers() != nil {
-		for _, r := range *elem.Referrers() {
-			switch r.(type) {
-			case *ssa.ChangeInterface, *ssa.MakeInterface, *ssa.DebugRef:
-			default:
-				other++
+	return st.canon(v)
+}
+
+// structFields returns the fields of a struct value built on the path (by value or behind a pointer).
+func structFields(st *State, v Val) map[string]Val {
+	switch x := v.(type) {
+	case *StructV:
+		return x.F
+	case *Ptr:
+		if o := st.mem[x.O]; o != nil {
+			out := map[string]Val{}
+			for k, f := range o.F {
+				if strings.HasPrefix(k, x.Path) {
+					out[strings.TrimPrefix(k, x.Path)] = f
+				}
 			}
+			return out
 		}
 	}
-	c.Check(other == 0, "C20.I3", "packet#message-unmodified", p.Pos(ser.Pos()), fmt.Sprintf("the inner message value has %d uses other than being placed in the packet", other))
+	return nil
 }
 
-func arrLen(a *types.Array) int64 {
-	if a == nil {
-		return -1
-	}
-	return a.Len()
-}
-
-// pkgConstInt finds an integer constant by name in an imported package (by path suffix).
-func pkgConstInt(fn *ssa.Function, pkgSuffix, name string) (int64, bool) {
-	if fn.Pkg == nil {
-		return 0, false
-	}
-	for _, imp := range fn.Pkg.Pkg.Imports() {
-		if strings.HasSuffix(imp.Path(), pkgSuffix) {
-			if o, ok := imp.Scope().Lookup(name).(*types.Const); ok {
-				v, _ := constInt(ssa.NewConst(o.Val(), o.Type()))
-				return v, true
-			}
-		}
-	}
-	return 0, false
-}
-
-// signersSingle: GetSigners returns a slice literal with exactly one element.
-func signersSingle(m *Model, req *types.Named) bool {
+// signersExactly explores GetSigners of a message type and requires every return to be exactly [want].
+func signersExactly(m *Model, x *Explorer, req *types.Named, want string) (bool, string) {
 	for _, recv := range []types.Type{req, types.NewPointer(req)} {
 		sel := m.P.SSA.MethodSets.MethodSet(recv).Lookup(req.Obj().Pkg(), "GetSigners")
 		if sel == nil {
 			continue
 		}
 		fn := m.P.SSA.MethodValue(sel)
-		if fn == nil || fn.Synthetic != "" {
+		if fn == nil || fn.Synthetic != "" || len(fn.Params) != 1 {
 			continue
 		}
-		ok := false
-		for _, b := range fn.Blocks {
-			r, isR := b.Instrs[len(b.Instrs)-1].(*ssa.Return)
-			if !isR {
+		var recvVal Val = &Sym{N: "req", T: fn.Params[0].Type()}
+		if _, isPtr := fn.Params[0].Type().(*types.Pointer); isPtr {
+			recvVal = &SymPtr{Base: "req", T: fn.Params[0].Type()}
+		}
+		outs := x.Explore(fn, []Val{recvVal})
+		n := 0
+		for _, o := range outs {
+			if o.Kind != exitReturn || len(o.Rets) != 1 {
 				continue
 			}
-			sl, _ := r.Results[0].(*ssa.Slice)
-			if sl == nil {
-				return false
+			n++
+			els, known := x.sliceElems(o.St, o.Rets[0])
+			if !known || len(els) != 1 {
+				return false, fmt.Sprintf("a return yields %s (elements known=%v, %d)", o.St.canon(o.Rets[0]), known, len(els))
 			}
-			arr, _ := sl.X.(*ssa.Alloc)
-			if arr == nil {
-				return false
+			if got := o.St.canon(els[0]); got != want {
+				return false, "the single signer is " + got + ", required " + want
 			}
-			at, _ := arr.Type().(*types.Pointer).Elem().Underlying().(*types.Array)
-			if at == nil || at.Len() != 1 {
-				return false
-			}
-			ok = true
 		}
-		return ok
+		return n > 0, fmt.Sprintf("%d returning paths", n)
 	}
-	return false
+	return false, "GetSigners not found"
 }
